@@ -142,7 +142,7 @@ def run(rep, args):
             if bad:
                 rep.violation('fail:%s:%s' % (entry, bad[:30]), '%s on %r: %s' % (entry, text, bad),
                               dict(kind='no-output-on-failure', input=text, entry=entry, message=bad))
-    n, k = (150, 12) if rep.tier == 'quick' else (1500, 30)
+    n, k = (150, 12) if rep.tier == 'quick' else (700, 24)
     if pr['demoted'] or pr['regressions']:
         n *= 3
     psc.corruption(rep, n, k)
